@@ -412,6 +412,12 @@ fn scenario_inner(lab: &mut H2Lab, case: &Case, tag: &str) -> CheckResult {
                 (":path".to_string(), format!("/r{i}")),
                 ("x-lab-req".to_string(), i.to_string()),
             ];
+            // half of the requests with a body declare it (content-length must then agree with the DATA octets:
+            // sozu checks it per stream, RFC 9113 8.1.1)
+            let mut headers = headers;
+            if s.req_len > 0 && (case.seed >> (i % 48)) & 1 == 1 {
+                headers.push(("content-length".to_string(), s.req_len.to_string()));
+            }
             if let Err(e) = c.send_headers(ids[i], &headers, s.req_len == 0, None) {
                 return Err(Failure::new(format!("{tag}/client-write"), format!("cannot send HEADERS of stream {}: {e}", ids[i])));
             }
